@@ -2,8 +2,9 @@
 """pack_seed.py <ID> <A|B> <slug> <needs-text>: stores a confirmed seeded change under /verif/seeded/"""
 import sys, json, os, shutil
 pid, x, slug, needs = sys.argv[1:5]
-src = f"/tmp/out-{pid}"
-dst = f"/verif/seeded/{pid}-{x}-{slug}"
+rnd = os.environ.get("ROUND", "")
+src = f"/tmp/out{rnd}-{pid}"
+dst = f"/verif/seeded/{pid}-{x}{rnd}-{slug}"
 os.makedirs(dst, exist_ok=True)
 shutil.copy(f"{src}/{x}.patch", f"{dst}/patch.diff")
 shutil.copy(f"{src}/{x}_demo.rs", f"{dst}/demo.rs")
@@ -17,7 +18,7 @@ meta = {
     "base_commit": head,
     "origin": "written by an independent sub-agent that saw only the property text and its own scratch worktree",
     "confirmed_by_me": {
-        "how": f"tools/confirm_seed.sh {pid} {x}: in the scratch worktree, applied patch.diff, ran `cargo test --workspace --no-fail-fast --offline`, ran demo.rs as tevec/tests/seed_demo.rs with and without the change",
+        "how": (("ROUND=" + rnd + " ") if rnd else "") + f"tools/confirm_seed.sh {pid} {x}: in the scratch worktree, applied patch.diff, ran `cargo test --workspace --no-fail-fast --offline`, ran demo.rs as tevec/tests/seed_demo.rs with and without the change",
         "result": confirm,
     },
     "detected_by": [],
